@@ -7,7 +7,7 @@ package http2_test
 import "golang.org/x/net/internal/zzverif/vx"
 
 func c11cliRunParts(c *vx.Ctx) {
-	c.Rule("EV, client part: Transport with per-stream receive window 8 (stream boundary) or connection receive buffer 65535 (window 131070) pre-filled by seven 16384-byte frames (connection boundary); every event sequence of depth 1..D after the seed over {REQ (<=2 GETs), response HEADERS, DATA(stream, len = w-1 | w | w+1 relative to the monitor's current min(stream, connection) window w, and len 1, 0), application Read(n), Body.Close}; an out-of-window frame ends the sequence; oracle: DATA inside both advertised windows is never answered with FLOW_CONTROL_ERROR and is delivered to Response.Body in order (final drain); DATA beyond a window is answered with GOAWAY or RST_STREAM carrying FLOW_CONTROL_ERROR and Reads never return more than the in-window prefix")
+	c.Rule("EV, client part: Transport with per-stream receive window 8 or 600 (stream boundary) or connection receive buffer 65535 (window 131070) pre-filled by seven 16384-byte frames (connection boundary); every event sequence of depth 1..D after the seed over {REQ (<=2 GETs), response HEADERS, unpadded DATA(stream, len = w-1 | w | w+1 relative to the monitor's current min(stream, connection) window w, and len 1, 0), in the */padded parts also PADDED DATA whose whole frame payload is w-1 | w | w+1 with pad-length byte + padding = 1 | 3 | 256 bytes of it and fixed 1-byte-payload frames with pad length 1 | 255 (same alphabet as the server part), application Read(n), Body.Close}; the monitor debits the whole frame payload; an out-of-window frame ends the sequence; oracle: DATA inside both advertised windows is never answered with FLOW_CONTROL_ERROR and is delivered to Response.Body in order (final drain); DATA beyond a window is answered with GOAWAY or RST_STREAM carrying FLOW_CONTROL_ERROR and Reads never return more than the in-window prefix")
 	small := c09cliCfg{StrWin: 8}
 	connB := c09cliCfg{ConnWin: 65535}
 	pre := "D(1,16384,0,0)"
@@ -19,12 +19,25 @@ func c11cliRunParts(c *vx.Ctx) {
 	resp := [][2]int64{{-1, 0}}
 	aSmall := c10cliAlphabet([]int64{0}, resp, d, []int64{1, 100}, []string{"C"}, rel)
 	aConn := c10cliAlphabet(nil, nil, d, []int64{1, 100, 20000}, []string{"C"}, rel)
+	// padded alphabets: as on the server part (c11srvParts)
+	mid := c09cliCfg{StrWin: 600}
+	dPadS := [][3]int64{{1, 0, 0}, {0, 0, 0}, {1, 1, 0}}
+	dPadL := [][3]int64{{1, 0, 0}, {0, 0, 0}, {1, 1, 0}, {1, 255, 0}}
+	ovhS := []int64{1, 3}
+	ovhL := []int64{1, 3, 256}
+	pSmall := c11cliAlphabet([]int64{0}, resp, dPadS, []int64{1, 100}, []string{"C"}, rel, ovhS)
+	pMid := c11cliAlphabet([]int64{0}, resp, dPadL, []int64{1, 1000}, []string{"C"}, rel, ovhL)
+	pConn := c11cliAlphabet(nil, nil, dPadL, []int64{1, 100, 20000}, []string{"C"}, rel, ovhL)
 	var parts []c10cliPart
 	if c.Quick() {
 		parts = []c10cliPart{
 			{"cli/win8/one-response", small, seedStream, aSmall, 5},
 			{"cli/conn131070/prefilled", connB, seedConn, aConn, 4},
 			{"cli/conn131070/prefilled-two-streams", connB, seedConn2, aConn, 3},
+			{"cli/win8/one-response/padded", small, seedStream, pSmall, 4},
+			{"cli/win600/one-response/padded", mid, seedStream, pMid, 3},
+			{"cli/conn131070/prefilled/padded", connB, seedConn, pConn, 3},
+			{"cli/conn131070/prefilled-two-streams/padded", connB, seedConn2, pConn, 2},
 		}
 	} else {
 		parts = []c10cliPart{
@@ -32,7 +45,28 @@ func c11cliRunParts(c *vx.Ctx) {
 			{"cli/win8/one-response", small, seedStream, aSmall, 6},
 			{"cli/conn131070/prefilled", connB, seedConn, aConn, 5},
 			{"cli/conn131070/prefilled-two-streams", connB, seedConn2, aConn, 4},
+			{"cli/win8/one-response/padded", small, seedStream, pSmall, 5},
+			{"cli/win600/one-response/padded", mid, seedStream, pMid, 4},
+			{"cli/conn131070/prefilled/padded", connB, seedConn, pConn, 4},
+			{"cli/conn131070/prefilled-two-streams/padded", connB, seedConn2, pConn, 3},
 		}
 	}
 	c10cliRunPartList(c, c10sMode{id: "C11", enforce: true}, parts)
+}
+
+// c11cliAlphabet is c10cliAlphabet plus, per stream, the PADDED
+// boundary-relative frames DRP(s, rel, ovh) (see c10Frame).
+func c11cliAlphabet(reqKinds []int64, resp [][2]int64, data [][3]int64, reads []int64, extras []string, rel, ovhs []int64) []c08srvEv {
+	var a []c08srvEv
+	for _, ev := range c10cliAlphabet(reqKinds, resp, data, nil, nil, rel) {
+		a = append(a, ev)
+		if ev.K == "DR" && ev.arg(1) == rel[len(rel)-1] {
+			for _, o := range ovhs {
+				for _, r := range rel {
+					a = append(a, c08srvEv{K: "DRP", A: []int64{ev.arg(0), r, o, 0}})
+				}
+			}
+		}
+	}
+	return append(a, c10cliAlphabet(nil, nil, nil, reads, extras, nil)...)
 }
